@@ -3,6 +3,7 @@ package walletrestart
 import (
 	"fmt"
 	"math/rand"
+	"sync"
 
 	"verifharness/core"
 )
@@ -32,8 +33,39 @@ func newShadow(rng *rand.Rand, full bool) *shadow {
 		s.keyUsed[i] = map[int]bool{}
 		s.dryKey[i] = map[int]bool{}
 	}
-	s.ops = []string{"reset"}
+	s.ops = []string{resetOp()}
 	return s
+}
+
+// probePubFix runs, once per process, the failing combined passphrase change (public half right, private half wrong)
+// on a throw-away wallet and asks whether the running wallet still accepts the OLD public passphrase: false on a tree
+// where the handler leaves the new public master key in memory after the rollback (the unchanged tree), true with
+// repo-patches/fix-C05-changepassphrases-public-half-rollback.diff.  Only selects the model variant (`reset pf=1`).
+var (
+	pubFixOnce sync.Once
+	pubFix     bool
+)
+
+func probePubFix() bool {
+	pubFixOnce.Do(func() {
+		r := &runner{}
+		defer r.Close()
+		if err := r.reset(); err != nil {
+			return
+		}
+		if err := r.w.ChangePassphrases(pubPassOf(0), pubPassOf(1), privPassOf(3), privPassOf(2)); err == nil {
+			return
+		}
+		pubFix = r.w.ChangePublicPassphrase(pubPassOf(0), pubPassOf(0)) == nil
+	})
+	return pubFix
+}
+
+func resetOp() string {
+	if probePubFix() {
+		return "reset pf=1"
+	}
+	return "reset"
 }
 
 func (s *shadow) add(op string) {
@@ -552,7 +584,7 @@ func (engine) Generate(rng *rand.Rand, tier string) []core.Case {
 	}
 	// malformed stream
 	cases = append(cases, core.Case{Tags: []string{"malformed"}, Ops: []string{
-		"reset", "frobnicate", "newaddr sc=wpkh", "newaddr sc=xx a=0", "newaddr sc=wpkh a=x",
+		"reset pf=2", "newaddr sc=wpkh a=0", resetOp(), "frobnicate", "newaddr sc=wpkh", "newaddr sc=xx a=0", "newaddr sc=wpkh a=x",
 		"createtx sc=wpkh a=0 dry=2 amt=small nf=0", "createtx sc=wpkh a=0 dry=0 amt=mid nf=0", "createtx sc=wpkh a=0 dry=0 amt=small",
 		"fundpsbt sc=wpkh a=0 coin=x", "fundpsbt sc=wpkh a=0", "importdry sc=wpkh name=2 key=9 n=1", "importdry sc=wpkh name=2 key=1 n=99",
 		"importdry sc=wpkh name=2 key=1", "import sc=wpkh name=x key=1", "import sc=wpkh key=1", "rename sc=wpkh a=0", "rename sc=wpkh name=2",
@@ -588,7 +620,7 @@ func exhaustive() []core.Case {
 	var rec func(prefix []string, depth int)
 	rec = func(prefix []string, depth int) {
 		if depth > 0 {
-			ops := append([]string{"reset", "fund sc=wpkh a=0"}, prefix...)
+			ops := append([]string{resetOp(), "fund sc=wpkh a=0"}, prefix...)
 			ops = append(ops, "cmp")
 			cases = append(cases, core.Case{Ops: ops, Tags: []string{"exhaustive"}})
 		}
